@@ -1,5 +1,5 @@
 """C17 — Mock Omaha server conforms to the client it doubles for (structural clauses)."""
-import json, os
+import json, os, re
 from ..core import BV, strip, walk, fmt_t, is_logging_span
 from .. import lib, guards, terms, flow, schema, facts, census
 
@@ -167,8 +167,13 @@ def run(F, R):
             base = terms.render(hv, hv.trace_place({"l": ws[0][1]["l"]}), W, {}, transparent=T)
             val = terms.render(hv, hv._trace_rv(ws[0][2], None, 0), W, {}, transparent=T)
             det = "%s.responses_by_appid = %s" % (base[:80], val[:80])
-            ok = "lock(" in base and val.startswith("expect(from_slice(")
+            ok = re.search(r"(?<![A-Za-z_])lock\(", base) is not None and "try_lock" not in base and val.startswith("expect(from_slice(")
         R.check("C17-R5", "whole-map-under-lock", ok, det, "set_responses: %s" % det)
+        if ws:
+            parsed = [bi for bi, t in hv.calls() if lib.callee_is(t, "serde_json::from_slice")]
+            skip = set(hv.exits()) & hv.reach_from(parsed, avoid=[w[0] for w in ws])
+            R.check("C17-R5", "reconfiguration-always-applied", bool(parsed) and not skip, "once the new map is parsed, every path of handle_set_responses to its answer passes the assignment of the new map",
+                    "handle_set_responses can answer without having replaced the response map (e.g. when the lock is busy): the reconfiguration is silently dropped")
     if co:
         cv = BV.of(co[0])
         first = None
